@@ -35,7 +35,7 @@ def run(ctx):
     ctx.check(set(rec_fields) == {"prices", "volumes", "volumes_at_levels", "orders_at_levels"}, "records", "fields", "-",
               "Level2DataRecords has the four (bid, ask) series groups", "Level2DataRecords fields: %s" % sorted(rec_fields))
     ap = ctx.prog.method("Level2DataRecords", "append_record", crate="bourse_de")
-    q = m.q(ap)
+    q = m.qi(ap)    # a private per-level helper is spliced in
     pushes = q.calls("push")
     ctx.check(len(pushes) == 8, "append", "count", ctx.loc(ap), "append_record has 8 push sites (4 scalar series + 4 per-level series)", "append_record has %d push sites" % len(pushes))
     loop_next = [c for c in q.calls("next") if q.cfg.in_loop(c.b)]
